@@ -19,6 +19,7 @@ import Chrono.Proofs.FormatRfcL
 import Chrono.Extracted.SpecTable
 import Chrono.Extracted.DocTable
 import Chrono.Proofs.StrftimeDocL
+import Chrono.Proofs.StrftimeAppendL
 import Chrono.Model.ParseFrom
 
 namespace Chrono.Props.C12
@@ -458,7 +459,7 @@ theorem doc_examples_divergent :
 
 /-- **`value.format(fmt)` for each of the four types** (`ParseFrom.format`, the model of
 `format_with_items(StrftimeItems::new(fmt))` written into a `String`, compared with the crate by C13's
-`pf.f` ops and C12's `fm.pf` ops): a `NaiveDate` is shown with the date view only, a `NaiveTime` with
+`pf.f` / `pf.rt` ops): a `NaiveDate` is shown with the date view only, a `NaiveTime` with
 the time view only, a `NaiveDateTime` with both, a `DateTime` through its wall clock
 (`overflowing_naive_local`) with its offset, the zone name being the offset's `Display`.  The result is
 the concatenation of the documented texts of the items of `fmt` (`renderItemsOn`), and
@@ -577,6 +578,126 @@ example :
     ParseFrom.format (.zoned ⟨⟨dateOfYo 2024 31, ⟨86390, 0⟩⟩, 17⟩) (str "%F %T %Z") =
       wok (str "2024-02-01 00:00:07 +00:00:17") ∧
     renderItemsOn zonedViews (items (str "%F %T %Z")) 2024 32 ⟨7, 0⟩ 17 = some (str "2024-02-01 00:00:07 +00:00:17") := by
+  decide +kernel
+
+
+/-! ### whole format strings (audit gap MEDIUM-2) and unknown specifiers (audit gap MEDIUM-4) -/
+
+/-- **the tokenizer on `specifier ++ rest`**: for every complete documented specifier text `a`
+(`specTexts`: `%` + a row of the table, or `%` + padding modifier + a numeric row; 125 strings) and
+EVERY continuation `b`, the items are those of `a` followed by those of `b`, and so the text is the
+text of `a` followed by the text of `b` (same failure, same panic) -/
+theorem items_append (a b : List Nat) (ha : a ∈ specTexts) :
+    items (a ++ b) = items a ++ items b ∧
+    ∀ d t off, formatItemsR d t off (items (a ++ b)) =
+      (formatItemsR d t off (items a)).seq (formatItemsR d t off (items b)) := by
+  have h := StrftimeAppend.items_append a b ha
+  exact ⟨h, fun d t off => by rw [h, FormatL.formatItemsR_append]⟩
+
+/-- **format strings built from the documented specifiers**: a string that is any sequence of
+complete specifier texts followed by `%`-free text `lit` tokenizes specifier by specifier, its text is
+the concatenation of the specifier texts (each given by `specifier_ok` / `composite_eq_expansion`)
+followed by `lit` unchanged, and no item is the RFC 2822 item (the hypothesis of `entry_points_ok`).
+`_partial`: literal text BETWEEN two specifiers is not covered (only text after the last one; `%t %n
+%%` and the composites do carry separators) — that needs the alignment of the literal / white-space
+run scanners with the `%` that ends the run, which is not proved; the harness compares such strings
+(oracle "text of a format string is not the concatenation of its items"). -/
+theorem format_string_partial (chunks : List (List Nat)) (hc : ∀ a ∈ chunks, a ∈ specTexts)
+    (lit : List Nat) (hl : ∀ b ∈ lit, b ≠ 37) :
+    items (chunks.flatten ++ lit) = (chunks.map items).flatten ++ items lit ∧
+    (∀ d t off, formatItemsR d t off (items (chunks.flatten ++ lit)) =
+      chunks.foldr (fun a acc => (formatItemsR d t off (items a)).seq acc) (wok lit)) ∧
+    Item.fixed .rfc2822 ∉ items chunks.flatten := by
+  have h1 := StrftimeAppend.items_flatten chunks hc lit
+  refine ⟨h1, fun d t off => ?_, ?_⟩
+  · rw [h1]
+    have hlit : formatItemsR d t off (items lit) = wok lit := by
+      unfold items
+      exact FormatL.literal_copied_aux false d t off _ lit (by omega) hl
+    clear h1
+    induction chunks with
+    | nil => simpa using hlit
+    | cons a rest ih =>
+      simp only [List.map_cons, List.flatten_cons, List.append_assoc, List.foldr_cons]
+      rw [FormatL.formatItemsR_append, ih (fun x hx => hc x (List.mem_cons_of_mem _ hx))]
+  · have h0 := StrftimeAppend.items_flatten chunks hc []
+    rw [List.append_nil] at h0
+    rw [h0]
+    have key : ∀ a ∈ StrftimeAppend.specTextsLit, Item.fixed .rfc2822 ∉ items a := by decide +kernel
+    intro hmem
+    rw [show items [] = [] from rfl, List.append_nil, List.mem_flatten] at hmem
+    obtain ⟨l, hl1, hl2⟩ := hmem
+    rw [List.mem_map] at hl1
+    obtain ⟨a, ha, rfl⟩ := hl1
+    exact key a (by rw [← StrftimeAppend.specTexts_eq]; exact hc a ha) hl2
+
+/-- **an unknown or malformed specifier makes formatting fail, wherever it stands** (strict mode,
+the mode of every `format` method):
+(1) a byte after `%` that has no arm and is not a modifier or one of `z : . 3 6 9` — every
+undocumented letter and EVERY non-ASCII lead byte (any value ≥ 123) — turns the whole rest of the
+string into one `Item::Error`, whatever follows;
+(2) the same behind a padding modifier (`%-Q…`, `%0é…`);
+(3) exhaustively over all byte values: the truncated specifiers (`%`, `%-`, `%.`, `%.3`, `%:`, `%::`,
+`%#` … at the end of the string) and every one-byte continuation of `%`, `%-` `%0` `%_` `%#`, `%.`,
+`%.3 %.6 %.9`, `%3 %6 %9`, `%:`, `%::`, `%:::` start with `Item::Error` unless the bytes are one of the
+documented specifier texts — in particular a padding modifier on a non-numeric or composite specifier
+(`%-a`, `%0Z`, `%-D`, `%_%`) and `#` on anything but `z`;
+(4) after any sequence of complete specifiers the error is still there and nothing is formatted. -/
+theorem unknown_fails :
+    (∀ c rest, specTable c = none → c ∉ [45, 48, 95, 35, 122, 58, 46, 51, 54, 57] →
+      items (37 :: c :: rest) = [Item.error]) ∧
+    (∀ c rest, 123 ≤ c → items (37 :: c :: rest) = [Item.error]) ∧
+    (∀ m ∈ [45, 48, 95], ∀ c rest, (specTable c = none ∧ c ∉ [122, 58, 46, 51, 54, 57] ∨ 123 ≤ c) →
+      items (37 :: m :: c :: rest) = [Item.error]) ∧
+    ((∀ a ∈ [[37], [37, 45], [37, 48], [37, 95], [37, 35], [37, 46], [37, 51], [37, 54], [37, 57], [37, 46, 51],
+            [37, 46, 54], [37, 46, 57], [37, 58], [37, 58, 58], [37, 58, 58, 58], [37, 45, 46], [37, 35, 58],
+            [37, 45, 51], [37, 45, 58]],
+      (items a).head? = some Item.error) ∧
+     (∀ c < 256, items [37, c] = [Item.error] ∨ [37, c] ∈ specTexts) ∧
+     (∀ m ∈ [45, 48, 95, 35], ∀ c < 256, (items [37, m, c]).head? = some Item.error ∨ [37, m, c] ∈ specTexts) ∧
+     (∀ c < 256, (items [37, 46, c]).head? = some Item.error ∨ [37, 46, c] ∈ specTexts) ∧
+     (∀ d ∈ [51, 54, 57], ∀ c < 256,
+       ((items [37, 46, d, c]).head? = some Item.error ∨ [37, 46, d, c] ∈ specTexts) ∧
+       ((items [37, d, c]).head? = some Item.error ∨ [37, d, c] ∈ specTexts)) ∧
+     (∀ c < 256, (items [37, 58, c]).head? = some Item.error ∨ [37, 58, c] ∈ specTexts) ∧
+     (∀ c < 256, (items [37, 58, 58, c]).head? = some Item.error ∨ [37, 58, 58, c] ∈ specTexts) ∧
+     (∀ c < 256, (items [37, 58, 58, 58, c]).head? = some Item.error ∨ [37, 58, 58, 58, c] ∈ specTexts)) ∧
+    (∀ (chunks : List (List Nat)), (∀ a ∈ chunks, a ∈ specTexts) → ∀ bad, Item.error ∈ items bad →
+      ∀ d t off, Item.error ∈ items (chunks.flatten ++ bad) ∧
+        formatItems d t off (items (chunks.flatten ++ bad)) = none) := by
+  have hbig : ∀ c, 123 ≤ c → specTable c = none ∧ c ∉ [45, 48, 95, 35, 122, 58, 46, 51, 54, 57] := by
+    intro c hc
+    refine ⟨StrftimeAppend.specTable_none_of_gt c (by omega), ?_⟩
+    simp only [List.mem_cons, List.mem_nil_iff, or_false, not_or]
+    omega
+  refine ⟨fun c rest hs hc => StrftimeAppend.unknown_letter c rest hs hc,
+    fun c rest hc => StrftimeAppend.unknown_letter c rest (hbig c hc).1 (hbig c hc).2, ?_, ?_, ?_⟩
+  · intro m hm c rest h
+    rcases h with ⟨hs, hc⟩ | hc
+    · exact StrftimeAppend.unknown_after_modifier m c rest hm hs hc
+    · refine StrftimeAppend.unknown_after_modifier m c rest hm (hbig c hc).1 ?_
+      simp only [List.mem_cons, List.mem_nil_iff, or_false, not_or]
+      omega
+  · rw [StrftimeAppend.specTexts_eq]
+    exact StrftimeAppend.unknown_fin
+  · intro chunks hc bad hb d t off
+    have h := StrftimeAppend.items_flatten chunks hc bad
+    have hm : Item.error ∈ items (chunks.flatten ++ bad) := by
+      rw [h]; exact List.mem_append_right _ hb
+    exact ⟨hm, FormatL.formatItems_error d t off _ hm⟩
+
+/-- non-vacuity: `%Y-%m-%d` is not in the chunk grammar (literal `-` between specifiers) but
+`%Y%m%d`, `%F%t%T%n%-j%%` followed by trailing text are; `%-D`, `%0Z`, `%.3x`, `%é`, `%-é` fail, also
+after `%Y%m` -/
+example :
+    [str "%F", str "%t", str "%T", str "%n", str "%-j", str "%%"].all (· ∈ specTexts) = true ∧
+    items ([str "%F", str "%t", str "%T", str "%n", str "%-j", str "%%"].flatten ++ str " ok") =
+      ([str "%F", str "%t", str "%T", str "%n", str "%-j", str "%%"].map items).flatten ++ items (str " ok") ∧
+    formatItems (some (dateOfYo 2001 12)) (some ⟨2099, 0⟩) none (items (str "%F%t%T%n%-j%% ok")) =
+      some (str "2001-01-12\t00:34:59\n12% ok") ∧
+    items (str "%é") = [Item.error] ∧ items (str "%-é") = [Item.error] ∧ items (str "%.3x") = [Item.error] ∧
+    Item.error ∈ items (str "%Y%m%0Z") ∧ specTable 81 = none ∧
+    formatItems (some (dateOfYo 2001 12)) (some ⟨2099, 0⟩) none (items (str "%Y%m%-D")) = none := by
   decide +kernel
 
 
